@@ -13,12 +13,15 @@ import (
 	"path/filepath"
 	"sort"
 	"strings"
+	"time"
 
+	"github.com/deadsy/sdfx/obj"
 	"github.com/deadsy/sdfx/sdf"
 	v2 "github.com/deadsy/sdfx/vec/v2"
 	v3 "github.com/deadsy/sdfx/vec/v3"
 	"verifharness/exprgen"
 	. "verifharness/kit"
+	"verifharness/objparts"
 	"verifharness/shapes"
 )
 
@@ -227,13 +230,16 @@ func check(c *Ctx, r *Report) error {
 		_ = json.Unmarshal(b, &cp)
 	}
 	corpusTrees(rng, one3, one2)
-	knownFindings(r)
+	knownFindings(r, c.Repo)
 
 	for k := 0; k < n3; k++ {
 		one3(g.Gen3(k%4+1), "tree3/depth<="+fmt.Sprint(k%4+1))
 	}
 	for k := 0; k < n2; k++ {
 		one2(g.Gen2(k%4+1), "tree2/depth<="+fmt.Sprint(k%4+1))
+	}
+	if err := partsStratum(c, r, rng); err != nil {
+		return err
 	}
 	if err := c3.Write(c.Out); err != nil {
 		return err
@@ -285,7 +291,7 @@ func corpusTrees(rng *Rng, one3 func(*shapes.N3, string), one2 func(*shapes.N2, 
 }
 
 // knownFindings replays the inputs of the findings listed in known_findings.jsonl.
-func knownFindings(r *Report) {
+func knownFindings(r *Report, repo string) {
 	leaf := shapes.Class{Ctors: map[string]int{}}
 	// (1) offset-like operators over an operand outside the Lb classes: rotated extrusion
 	b := sdf.Box2D(v2.Vec{X: 2, Y: 2}, 0)
@@ -299,4 +305,106 @@ func knownFindings(r *Report) {
 	u := sdf.Union3D(sdf.Transform3D(s1, sdf.Translate3d(v3.Vec{X: -1})), sdf.Transform3D(s1, sdf.Translate3d(v3.Vec{X: 1})))
 	u.(*sdf.UnionSDF3).SetMin(sdf.PolyMin(4))
 	knownAt(r, &shapes.N3{Go: u, Desc: "Union3[PolyMin(4)](Sphere(1)@(-1,0,0),Sphere(1)@(1,0,0))", Cl: leaf}, v3.Vec{X: 0, Y: 1.0625, Z: 0})
+	// (3) the same blend class inside a library part: DrainCover blends body and cross-bar web with
+	// PolyMin(WallThickness); with a wall thicker than the cover the fillet reaches below z = 0
+	dc, err := obj.DrainCover(&obj.DrainCoverParms{WallDiameter: 146.496484375, WallHeight: 22.7458984375, WallThickness: 5.208984375,
+		WallDraft: 0.017368071365060758, OuterWidth: 8.6072265625, InnerWidth: 6.437833786010742, CoverThickness: 4.2912109375,
+		GrateNumber: 10, GrateWidth: 1.197265625, GrateDraft: 0.04107659665338217, CrossBarWidth: 1.4912109375, CrossBarWeb: true})
+	if err == nil {
+		knownAt(r, &shapes.N3{Go: dc, Desc: "obj.DrainCover{146.5,22.75,5.209,...,CoverThickness:4.291,CrossBarWeb:true}", Cl: leaf},
+			v3.Vec{X: -41.954353424535114, Y: 1.7818096682062314, Z: -9.5760304360062616e-05})
+	}
+	// (4) imported triangle meshes: the sign is taken from the plane of the heuristically nearest of N
+	// neighbouring triangles, so the value can be negative far outside the mesh (documented example call)
+	if im, err := obj.ImportSTL(filepath.Join(repo, "files", "bottle.stl"), 20, 3, 5); err == nil {
+		knownAt(r, &shapes.N3{Go: im, Desc: "obj.ImportSTL(files/bottle.stl,20,3,5)", Cl: leaf},
+			v3.Vec{X: -39.046413455132715, Y: 9.7042255571507141, Z: 12.045667931637125})
+	}
+}
+
+// partsStratum: every part of the object library and the opaque sdf constructors (cams, flange,
+// rack, spiral, spline, text, voxel, imported meshes, screws ...) built through the public API at
+// documented and perturbed parameters: box finite/ordered and no negative value outside it.
+// These shapes are outside the Coq model: sampled only (stated in the evidence).
+func partsStratum(c *Ctx, r *Report, rng *Rng) error {
+	os.Setenv("VERIF_REPO", c.Repo)
+	objparts.RepoDir = c.Repo
+	parts, errs := objparts.All(NewRng(rng.U64()))
+	covered, uncovered, err := objparts.Coverage(c.Repo)
+	if err != nil {
+		return err
+	}
+	r.Coverage["library_constructors_covered"] = len(covered)
+	r.Coverage["library_constructors_uncovered"] = uncovered
+	r.Coverage["library_parts"] = len(parts)
+	r.Coverage["library_part_errors"] = errs
+	for _, e := range errs {
+		r.Violate("part-construction:"+e, "a documented example of the object library fails to construct: "+e, e)
+	}
+	// the sign of an imported triangle mesh is heuristic (nearest of N neighbours by box) and blends
+	// add material: known findings, replayed from the corpus; not asserted on random variants
+	skip := func(pt objparts.Part) bool {
+		return pt.Source == "obj.ImportSTL" || pt.Source == "obj.ImportTriMesh" ||
+			(pt.Source == "obj.DrainCover" && strings.Contains(pt.Params, "CrossBarWeb:true"))
+	}
+	budget := TierN(c.Tier, 4000, 40000, 20000)
+	// CubicSpline2D prints debug lines from Evaluate: silence stdout while sampling
+	devnull, _ := os.OpenFile(os.DevNull, os.O_WRONLY, 0)
+	saved := os.Stdout
+	if devnull != nil {
+		os.Stdout = devnull
+		defer func() { os.Stdout = saved }()
+	}
+	for _, pt := range parts {
+		key := "part:" + pt.Name + "|" + pt.Params
+		r.Case("library/"+pt.Source, key, true)
+		if pt.Unbounded {
+			continue
+		}
+		// scale the sample count by the cost of one evaluation
+		n := budget
+		if pt.Dim == 3 {
+			bb := pt.S3.BoundingBox()
+			if !finite(bb.Min.X, bb.Min.Y, bb.Min.Z, bb.Max.X, bb.Max.Y, bb.Max.Z) || bb.Min.X > bb.Max.X || bb.Min.Y > bb.Max.Y || bb.Min.Z > bb.Max.Z {
+				r.Violate(key, "BoundingBox() is not finite and ordered: "+fmt.Sprint(bb), map[string]interface{}{"part": pt.Name, "params": pt.Params})
+				continue
+			}
+			if skip(pt) {
+				continue
+			}
+			n = costScaled(n, func() { pt.S3.Evaluate(bb.Center()) })
+			if p, d, found := search3(rng, pt.S3, n); found && d < -1e-9*math.Max(1, bb.Size().MaxComponent()) {
+				r.Violate(key, fmt.Sprintf("library part %s: Evaluate(%v) = %g < 0 outside BoundingBox() %v", pt.Name, p, d, bb),
+					map[string]interface{}{"part": pt.Name, "params": pt.Params, "point": p, "value": d, "box": bb})
+			}
+		} else {
+			bb := pt.S2.BoundingBox()
+			if !finite(bb.Min.X, bb.Min.Y, bb.Max.X, bb.Max.Y) || bb.Min.X > bb.Max.X || bb.Min.Y > bb.Max.Y {
+				r.Violate(key, "BoundingBox() is not finite and ordered: "+fmt.Sprint(bb), map[string]interface{}{"part": pt.Name, "params": pt.Params})
+				continue
+			}
+			n = costScaled(n, func() { pt.S2.Evaluate(bb.Center()) })
+			if p, d, found := search2(rng, pt.S2, n); found && d < -1e-9*math.Max(1, bb.Size().MaxComponent()) {
+				r.Violate(key, fmt.Sprintf("library part %s: Evaluate(%v) = %g < 0 outside BoundingBox() %v", pt.Name, p, d, bb),
+					map[string]interface{}{"part": pt.Name, "params": pt.Params, "point": p, "value": d, "box": bb})
+			}
+		}
+	}
+	return nil
+}
+
+// costScaled reduces the sample count for shapes whose Evaluate is slow (text, imported meshes).
+func costScaled(n int, eval func()) int {
+	t0 := time.Now()
+	for i := 0; i < 8; i++ {
+		eval()
+	}
+	per := time.Since(t0).Seconds() / 8
+	if per*float64(n) > 0.15 {
+		n = int(0.15 / per)
+		if n < 200 {
+			n = 200
+		}
+	}
+	return n
 }
